@@ -90,6 +90,15 @@ auto_decode(void *coder_ptr, const lzma_allocator *allocator,
 				|| (coder->flags & LZMA_CONCATENATED) == 0)
 			return ret;
 
+		// The .xz and .lz decoders handle LZMA_CONCATENATED
+		// themselves. In particular, the .lz decoder may return
+		// LZMA_STREAM_END without consuming all input because
+		// trailing data is allowed after the last .lz member.
+		// Only LZMA_Alone needs the extra check in SEQ_FINISH.
+		// (It is LZMA_Alone if get_check is NULL.)
+		if (coder->next.get_check != NULL)
+			return ret;
+
 		coder->sequence = SEQ_FINISH;
 		FALLTHROUGH;
 	}
